@@ -138,6 +138,16 @@ func vh_rto_expired() {
 	vassume(s.rto >= 200*time.Millisecond && s.rto < 1<<40)
 	s.resendTimer.enable(s.rto)
 	rto0 := s.rto
+	if vnBool("in_fast_recovery") {
+		// the timeout may strike while a fast recovery is in progress (inflated window, ssthresh > 1)
+		s.fr.active = true
+		s.fr.first = s.sndUna
+		s.fr.last = s.sndNxt - 1
+		s.sndSsthresh = 2 + int(vnU8("ssthresh"))
+		s.sndCwnd = s.sndSsthresh + 3
+		s.fr.maxCwnd = s.sndCwnd + s.outstanding
+		vreach("rto-in-recovery")
+	}
 	ok := s.retransmitTimerExpired()
 	if s.resendTimer.state == timerStateEnabled && s.rto == rto0 && ok && len(c.net.Sent) == 0 {
 		vreach("not-yet") // the timer had not expired: nothing happens
@@ -152,6 +162,7 @@ func vh_rto_expired() {
 	vassert(rto0 < 60*time.Second, "below 60s a timeout retransmits")
 	vassert(s.rto == 2*rto0, "the timeout doubles between successive retransmissions")
 	vassert(s.sndCwnd == 1, "the congestion window collapses to one segment")
+	vassert(!s.fr.active, "a timeout ends fast recovery")
 	nd := 0
 	for _, p := range c.net.Sent {
 		d := vhDecode(p)
